@@ -87,7 +87,7 @@ fn normalized(p: &str) -> bool {
 
 /// Evaluate the necessary conditions for acceptance of one layout level against one directory.
 /// `now` is the simulated instant of the verification call.
-pub fn eval_level(layout: &DocTruth, dir: &DirTruth, now: (i64, u32), id: &str, depth: usize) -> LevelEval {
+pub fn eval_level(layout: &DocTruth, dir: &DirTruth, now: (i64, u32), id: &str, depth: usize, exits: &BTreeMap<String, ExitSpec>) -> LevelEval {
     let mut ev = LevelEval { id: id.to_string(), ..Default::default() };
     let signed = &layout.signed;
     // expiry
@@ -140,7 +140,7 @@ pub fn eval_level(layout: &DocTruth, dir: &DirTruth, now: (i64, u32), id: &str, 
                     if depth >= 4 {
                         (vec![], None)
                     } else {
-                        let se = eval_level(doc, sd, now, &format!("{}/{}", id, subname), depth + 1);
+                        let se = eval_level(doc, sd, now, &format!("{}/{}", id, subname), depth + 1, exits);
                         (se.fails.clone(), Some(Box::new(se)))
                     }
                 } else {
@@ -198,21 +198,39 @@ pub fn eval_level(layout: &DocTruth, dir: &DirTruth, now: (i64, u32), id: &str, 
                 format!("level {id} step {name}: only {} of the needed {need} signers have unexpired delegated evidence", pass.len()),
             ));
         }
-        // agreement (C07): all strictly counting plain links must agree
+        // agreement (C07): all strictly counting evidence must report the same materials and products.
+        // Delegated evidence takes part when its summary is determined (exactly one possible value).
         if threshold >= 2 {
             let strict: Vec<&Cand> = cands.iter().filter(|c| c.strict).collect();
-            if strict.iter().all(|c| c.kind == Kind::Link) {
-                for c in &strict {
-                    if c.signed["materials"] != strict[0].signed["materials"]
-                        || c.signed["products"] != strict[0].signed["products"]
-                    {
+            let mut arts: Vec<(String, Value, Value)> = vec![];
+            let mut determined = true;
+            for c in &strict {
+                match (&c.kind, &c.sub_eval) {
+                    (Kind::Link, _) => arts.push((c.file.clone(), c.signed["materials"].clone(), c.signed["products"].clone())),
+                    (Kind::Layout, Some(se)) if c.sub_fails.is_empty() => {
+                        let (pm, pp) = possible_summary(se);
+                        let mut ms: Vec<&Value> = pm.iter().collect();
+                        ms.dedup();
+                        let mut ps: Vec<&Value> = pp.iter().map(|x| &x.0).collect();
+                        ps.dedup();
+                        let all_m_same = pm.iter().all(|x| Some(x) == pm.first());
+                        let all_p_same = pp.iter().all(|x| Some(&x.0) == pp.first().map(|y| &y.0));
+                        if !pm.is_empty() && !pp.is_empty() && all_m_same && all_p_same {
+                            arts.push((c.file.clone(), pm[0].clone(), pp[0].0.clone()));
+                        } else {
+                            determined = false;
+                        }
+                    }
+                    _ => determined = false,
+                }
+            }
+            if determined {
+                for a in &arts {
+                    if a.1 != arts[0].1 || a.2 != arts[0].2 {
                         ev.fails.push(finding(
                             "C07",
                             "dissenting-link-accepted",
-                            format!(
-                                "level {id} step {name} (threshold {threshold}): links {} and {} differ in materials/products",
-                                strict[0].file, c.file
-                            ),
+                            format!("level {id} step {name} (threshold {threshold}): evidence {} and {} differ in materials/products", arts[0].0, a.0),
                         ));
                         break;
                     }
@@ -220,6 +238,26 @@ pub fn eval_level(layout: &DocTruth, dir: &DirTruth, now: (i64, u32), id: &str, 
             }
         }
         ev.steps.push(StepEval { name, threshold, cands });
+    }
+    // an inspection whose command is known to fail (scripted exit status, signal, not found) makes the
+    // level fail once it runs; for a delegated level that means its evidence cannot count
+    for insp in signed["inspect"].as_array().unwrap_or(&empty) {
+        let run = str_list(&insp["run"]);
+        let failing = if run.len() == 3 && run[1] == "actor" {
+            match exits.get(&run[2]) {
+                Some(ExitSpec::Code(0)) | None => false,
+                Some(_) => true,
+            }
+        } else {
+            run.first().map(|x| x.starts_with("/nonexistent/scsim-notfound-")).unwrap_or(false)
+        };
+        if failing {
+            ev.fails.push(finding(
+                "C08",
+                "failing-inspection-accepted",
+                format!("level {id}: inspection {} is scripted to fail and the level was accepted", insp["name"]),
+            ));
+        }
     }
     ev.insp_names = signed["inspect"]
         .as_array()
@@ -250,7 +288,7 @@ pub fn eval_level(layout: &DocTruth, dir: &DirTruth, now: (i64, u32), id: &str, 
         }
         links.insert(s.name.clone(), la);
     }
-    if unambiguous && ev.fails.is_empty() && !ev.out_of_scope {
+    if unambiguous && !ev.out_of_scope {
         let mut judged = true;
         let mut reject = None;
         for st in signed["steps"].as_array().unwrap_or(&empty) {
@@ -347,7 +385,15 @@ pub fn judge_supply(t: &SupplyTrace, o: &SupplyOutcome) -> SupplyJudgement {
     // with a clock that moves during the call, the weakest reading of "the moment of verification"
     // is the earliest instant any read returns
     let now = t.clock.iter().copied().min().unwrap_or((0, 0));
-    let ev = eval_level(&o.truth.root_layout, &o.truth.dir, now, "root", 0);
+    let mut exits: BTreeMap<String, ExitSpec> = BTreeMap::new();
+    {
+        let mut acts = vec![];
+        all_actors(&t.root, "root", &mut acts);
+        for (a, _, _) in acts {
+            exits.insert(a.id.clone(), a.exit.clone());
+        }
+    }
+    let ev = eval_level(&o.truth.root_layout, &o.truth.dir, now, "root", 0, &exits);
     let any_ok = o.verdicts.iter().any(|v| v.ok);
     // C01: caller key set
     let caller_ids: Vec<String> = t.caller.iter().map(|(_, m)| crate::keys::key(t.keys[*m]).id.clone()).collect();
@@ -381,10 +427,12 @@ pub fn judge_supply(t: &SupplyTrace, o: &SupplyOutcome) -> SupplyJudgement {
             for v in o.verdicts.iter().filter(|v| v.ok) {
                 if let Some(s) = &v.summary {
                     if !pm.is_empty() && !pm.contains(&s["materials"]) {
+                        f.push(finding("C02", "non-counting-evidence-used", format!("the returned summary's materials {} are not those of any evidence that counts for the first step", s["materials"])));
                         f.push(finding("C15", "summary-materials", format!("summary materials {} are not those of any counting first-step evidence", s["materials"])));
                         break;
                     }
                     if !pp.is_empty() && !pp.iter().any(|x| x.0 == s["products"]) {
+                        f.push(finding("C02", "non-counting-evidence-used", format!("the returned summary's products {} are not those of any evidence that counts for the last step", s["products"])));
                         f.push(finding("C15", "summary-products", format!("summary products {} are not those of any counting last-step evidence", s["products"])));
                         break;
                     }
@@ -405,7 +453,8 @@ pub fn judge_supply(t: &SupplyTrace, o: &SupplyOutcome) -> SupplyJudgement {
         }
     }
     // C03, other direction: a rule rejection needs a cause in the reference model
-    if ev.rules_judged && ev.rules_reject.is_none() && c01.is_empty() {
+    // (only where no inspection can be the one whose rules reject)
+    if ev.rules_judged && ev.rules_reject.is_none() && c01.is_empty() && exits.is_empty() {
         if let Some(v) = o.verdicts.iter().find(|v| !v.ok && v.panic.is_none() && v.class == "ArtifactRuleError") {
             f.push(finding("C03", "rule-rejection-without-cause", format!("the verifier rejects with '{}' but the reference model accepts every step's rules", v.msg.chars().take(200).collect::<String>())));
         }
@@ -451,20 +500,22 @@ fn collect_levels<'a>(ev: &'a LevelEval, out: &mut BTreeMap<String, &'a LevelEva
     }
 }
 
-fn all_actors<'a>(level: &'a LevelSpec, out: &mut Vec<&'a ActorScript>) {
+/// Every inspection actor of the world with the id of the level it currently belongs to (the chain
+/// of sub-directories as they are now, after faults) and its inspection spec.
+fn all_actors<'a>(level: &'a LevelSpec, path: &str, out: &mut Vec<(&'a ActorScript, String, &'a InspSpec)>) {
     for i in &level.layout.inspect {
-        out.push(&i.actor);
+        out.push((&i.actor, path.to_string(), i));
     }
     for f in &level.files {
         if let Body::Layout(inner) = &f.body {
-            all_actors(inner, out);
+            all_actors(inner, &format!("{}/{}", path, inner.subdir), out);
         }
     }
 }
 
 fn judge_c08(t: &SupplyTrace, o: &SupplyOutcome, ev: &LevelEval, root_sig_bad: bool, f: &mut Vec<Finding>) {
     let mut actors = vec![];
-    all_actors(&t.root, &mut actors);
+    all_actors(&t.root, "root", &mut actors);
     if actors.is_empty() {
         return;
     }
@@ -477,11 +528,13 @@ fn judge_c08(t: &SupplyTrace, o: &SupplyOutcome, ev: &LevelEval, root_sig_bad: b
         };
         let started: Vec<&str> = events.iter().filter_map(|l| l.strip_prefix("start ")).collect();
         for id in &started {
-            // actor id = "<level id>#<inspection name>"
-            let lid = id.split('#').next().unwrap_or("");
+            // the level the actor belongs to now
+            let lid_owned = actors.iter().find(|a| a.0.id == *id).map(|a| a.1.clone()).unwrap_or_default();
+            let lid = lid_owned.as_str();
             let bad = match levels.get(lid) {
                 Some(le) => {
-                    let mut why: Vec<String> = le.fails.iter().map(|x| format!("{}:{}", x.prop, x.clause)).collect();
+                    // (a failing inspection is not a stage before the inspections)
+                    let mut why: Vec<String> = le.fails.iter().filter(|x| x.prop != "C08").map(|x| format!("{}:{}", x.prop, x.clause)).collect();
                     if lid == "root" && root_sig_bad {
                         why.push("C01:owner-signature".into());
                     }
@@ -502,7 +555,7 @@ fn judge_c08(t: &SupplyTrace, o: &SupplyOutcome, ev: &LevelEval, root_sig_bad: b
         // link files of inspections written although the level fails
         for name in &ev.insp_names {
             let wrote = o.work_after[rep].iter().any(|p| p == &format!("{}.link", name));
-            if wrote && (!ev.fails.is_empty() || root_sig_bad) {
+            if wrote && (ev.fails.iter().any(|x| x.prop != "C08") || root_sig_bad) {
                 f.push(finding(
                     "C08",
                     "inspection-link-written-before-steps-verified",
@@ -512,33 +565,16 @@ fn judge_c08(t: &SupplyTrace, o: &SupplyOutcome, ev: &LevelEval, root_sig_bad: b
             }
         }
         if v.ok {
-            // (ii) a failing inspection is fatal
-            for a in &actors {
+            // files in the working directory before / after, as far as the scripts say
+            let before: BTreeSet<String> = t.work_files.iter().map(|w| w.0.clone()).collect();
+            for (a, lid, insp) in &actors {
                 let ran = started.contains(&a.id.as_str());
+                // (ii) a failing inspection is fatal
                 let failing = match a.exit {
                     ExitSpec::Code(c) => c != 0 && ran,
                     ExitSpec::Signal(_) => ran,
-                    ExitSpec::NotFound => a.id.starts_with("root#"),
+                    ExitSpec::NotFound => lid == "root",
                 };
-                // (iii) the inspection's products are subject to its rules: a file the actor created
-                // and a DISALLOW rule naming exactly that file
-                if ran && a.exit == ExitSpec::Code(0) && a.id.starts_with("root#") {
-                    let insp = t.root.layout.inspect.iter().find(|i| i.actor.id == a.id);
-                    if let Some(insp) = insp {
-                        for op in &a.ops {
-                            if let FsOp::Write { path, .. } = op {
-                                if insp.exp_prod.iter().any(|r| r.len() == 2 && r[0] == "DISALLOW" && &r[1] == path) {
-                                    f.push(finding(
-                                        "C08",
-                                        "inspection-rule-violation-accepted",
-                                        format!("repetition {rep}: inspection {} created '{}' which its expected_products DISALLOW, and verification returned Ok", a.id, path),
-                                    ));
-                                    return;
-                                }
-                            }
-                        }
-                    }
-                }
                 if failing {
                     f.push(finding(
                         "C08",
@@ -546,6 +582,34 @@ fn judge_c08(t: &SupplyTrace, o: &SupplyOutcome, ev: &LevelEval, root_sig_bad: b
                         format!("repetition {rep}: inspection actor {} ended with {:?} and verification returned Ok", a.id, a.exit),
                     ));
                     return;
+                }
+                // (iii) the inspection's recorded materials and products are subject to its rules:
+                // a DISALLOW rule that names a file present before (materials) or after (products)
+                if ran && a.exit == ExitSpec::Code(0) && lid == "root" && insp.name == t.root.layout.inspect[0].name {
+                    let mut after = before.clone();
+                    for op in &a.ops {
+                        match op {
+                            FsOp::Write { path, .. } | FsOp::Append { path, .. } => {
+                                after.insert(path.clone());
+                            }
+                            FsOp::Remove { path } => {
+                                after.remove(path);
+                            }
+                            _ => {}
+                        }
+                    }
+                    for (rules, present, what) in [(&insp.exp_mat, &before, "materials"), (&insp.exp_prod, &after, "products")] {
+                        for r in rules.iter() {
+                            if r.len() == 2 && r[0] == "DISALLOW" && present.contains(&r[1]) {
+                                f.push(finding(
+                                    "C08",
+                                    "inspection-rule-violation-accepted",
+                                    format!("repetition {rep}: inspection {}: '{}' is among its {what} and its rules DISALLOW it, yet verification returned Ok", a.id, r[1]),
+                                ));
+                                return;
+                            }
+                        }
+                    }
                 }
             }
         }
